@@ -85,7 +85,7 @@ def items(tier):
     for it in seq.family_F(tier):
         out.append((i,) + it)
         i += 1
-    for j, it in enumerate(tt.family_T('quick') + tt.family_H('quick') + tt.family_Q('quick')):
+    for j, it in enumerate(tt.family_T('quick') + tt.family_H('quick') + tt.family_Q('quick') + tt.family_R('quick')):
         if j % step == 0:
             out.append((i,) + it)
             i += 1
@@ -129,6 +129,8 @@ def sources(item, tier):
         return [('H', tt.build_H(item[2]), tt.H_ARGVS)]
     if fam == 'Q':
         return [('Q', tt.build_Q(item[2]), tt.Q_ARGVS)]
+    if fam == 'R':
+        return [('R', tt.build_R(item[2]), tt.T_ARGVS)]
     if fam == 'Q2':
         return [('Q2', tt.build_Q2(item[2]), tt.Q_ARGVS)]
     if fam == 'P':
@@ -223,7 +225,7 @@ def coverage(total, tier):
         'K': f'{len(k_programs())} programs: terminal shapes {sorted(K_SHAPES) + sorted(K_DEFEAT_SHAPES)} x wrappers {sorted(K_WRAPS)} x '
              'flavours (ordinary, you, entry point, defeat function under undo/stop, try body, handler); x in 0,1,2; W in 2,3,4,8; '
              'checked, and unchecked where the checked twin raises no fault',
-        'reused families': 'E, S, F (C01); T, H, Q, P (C02); IDX, STR, DIV (C05); X (C08): '
+        'reused families': 'E, S, F (C01); T, H, Q, P, R (C02); IDX, STR, DIV (C05); X (C08): '
                            + ('all quick-size batches' if tier == 'thorough' else 'every 6th quick-size batch') + ', same inputs',
         'invariant': 'VM outcome is a state cycle; never a committed halt, never a trap; no fall-through between functions',
     })
